@@ -114,6 +114,43 @@ check('C09', 'bounded-exhaustive design-space enumeration x requested counts {1,
       'count: the number returned must be min(requested, available), no solution twice (identical prints at most multiplicity times), all valid.',
       DESIGN_NOTE, 'DESIGN.md section 4, C09')
 
+check('C14', 'bounded-exhaustive design-space enumeration x every (trial, factor, level) triple x all one-hot assignments (Hamming-2 neighbourhoods beyond 3000/50000)',
+      'For every design of strata S1-S4, S6 the variable map is checked to be injective onto 1..variables_per_sample(), inverted by decode_variable and '
+      'consistent with factor_variables_for_trial / build_variable_lists; encoder auxiliaries start above it; Gen.decode of every one-hot assignment '
+      'returns exactly the chosen names with blanks where a factor does not apply.',
+      'applicability of derived factors per trial from the reference model (documented start/stride)', 'DESIGN.md section 4, C14')
+
+check('C15', 'exhaustive enumeration of the predicate space: all 256 subset-valued tables over 4 window inputs x ElseLevel x 5 geometries x 3 roles',
+      'Every table mapping each window input to a subset of two levels is built into a real derived factor: overlapping tables must make the constructor '
+      'raise ValueError, uncovered inputs must make every strategy return [] without raising, and total unambiguous tables must give exactly the '
+      'reference set through IterateSATGen and RandomGen (labels, blanks before start / off stride, None only before trial 0).',
+      'reference model for total tables; stride>1 factors cannot be crossed (documented refusal)', 'DESIGN.md section 4, C15')
+
+check('C17', 'bounded-exhaustive design-space enumeration x all well-formed candidate sequences (full product <= 1500/20000, else valid + 1-edit + swap neighbourhoods)',
+      'For every design of strata S1-S6 every well-formed candidate is given to sample_mismatch_experiment on the real block: {} iff the candidate is in '
+      'the reference set; exceptions and accepted wrong-length sequences are violations.', DESIGN_NOTE + '; designs without sequences by construction skipped',
+      'DESIGN.md section 4, C17')
+
+check('C23', 'bounded-exhaustive design-space enumeration; metamorphic comparison with the copy-expanded twin design (both exhausted)',
+      'Every weighted design of strata S2/S2s (constraints not naming a weighted level) and multi-crossing designs with a partly crossed weighted factor is '
+      'compared with its twin in which weight-w levels are w separately named levels: set equality and no duplicates for fully crossed factors, multiset '
+      'equality otherwise; additionally compared with the reference multiset.', 'designs with <= 500/6000 sequences', 'DESIGN.md section 4, C23')
+
+check('C24', 'bounded-exhaustive enumeration of the law parameter space; differential exhaustion of both sides of each documented law',
+      'L1 MultiCrossBlock == Merge of CrossBlocks (7 crossing configurations x 3 modes x 3 alignments x constraints), L2 Repeat == Merge REPEAT, L3 Repeat(b,[]) == '
+      'Merge([b]) == b, L4 CrossBlock == MultiCrossBlock WEIGHT: both sides built fresh, exhausted through IterateSATGen, equal multisets and trial counts; '
+      'exactly one side constructible is a violation.', 'no oracle; instances with <= 600/5000 sequences', 'DESIGN.md section 4, C24')
+
+check('C25', 'bounded-exhaustive enumeration of outer/inner block pairs; exhaustion vs reference, structural group oracle, associativity law',
+      'Every design of stratum S6 is exhausted through IterateSATGen and RandomGen and compared with the reference set (groups of inner length, outer factors '
+      'constant per group, outer crossing over groups, inner crossing/constraints per group); outer-factor constancy and T = T_outer*T_inner are checked '
+      'directly; Nest(a,Nest(b,c)) == Nest(Nest(a,b),c) for all ordered triples of a block pool.', DESIGN_NOTE, 'DESIGN.md section 4, C25')
+
+check('C26', 'bounded-exhaustive enumeration of constraint placements (inner block vs combinator) under Repeat, Merge and Nest; exhaustion vs reference',
+      'For each constraint class, combinator and inner block (with/without preamble, whole/partial last repetition) both placements are exhausted through '
+      'IterateSATGen and RandomGen and compared with the reference set computed with per-repetition / whole-sequence windows; pairs whose placements differ '
+      'are counted.', DESIGN_NOTE + '; A3/A4 exclusions', 'DESIGN.md section 4, C26')
+
 
 def build():
     props = [json.loads(l) for l in (ROOT / 'properties.jsonl').read_text().splitlines() if l.strip()]
